@@ -188,7 +188,49 @@ def same_value(a, b):
     return a == b and type(a) is type(b) or a == b
 
 
+def _set_arm(serving):
+    try:
+        from btclib.curves.curve import is_libsecp256k1_serving, set_libsecp256k1_serving
+        was = is_libsecp256k1_serving()
+        set_libsecp256k1_serving(serving=serving)
+        return was
+    except Exception:  # noqa: BLE001  bindings not installed
+        return None
+
+
 def native_check(entry, args):
+    """with option both_arms: run on the libsecp256k1 arm and on the Python arm (C04: the two
+    are observationally identical) and hold both against the contract"""
+    if not entry.get("options", {}).get("both_arms"):
+        return native_check_one(entry, args)
+    was = _set_arm(True)
+    if was is None:
+        return native_check_one(entry, args)
+    try:
+        a_args = {k: clone_arg(v) for k, v in args.items()}
+        st1, bad1, d1 = native_check_one(entry, a_args)
+        _set_arm(False)
+        st2, bad2, d2 = native_check_one(entry, args)
+    finally:
+        _set_arm(was)
+    if st1 == "pre-false" and st2 == "pre-false":
+        return st1, [], ""
+    bad = ["bindings:" + b for b in bad1] + ["python:" + b for b in bad2]
+    o1, o2 = d1.split(" | ")[0], d2.split(" | ")[0]
+    if _outcome_key(o1) != _outcome_key(o2):
+        bad.append("arms.differ")
+    detail = f"bindings: {d1} || python: {d2}"
+    return ("violated" if bad else "ok"), bad, detail
+
+
+def _outcome_key(o):
+    """same value, or same exception class (messages may differ)"""
+    if o.startswith("outcome=raise:"):
+        return "raise:" + o[len("outcome=raise:"):].split("(")[0]
+    return o
+
+
+def native_check_one(entry, args):
     """run the real function on concrete arguments (dict name -> value) and evaluate every
     clause of its contract; returns (status, [violated clause names], detail)"""
     cls = entry["cls"]
